@@ -2,6 +2,7 @@ import Gaftools.Props.C03
 import Gaftools.Props.TieA
 import Gaftools.Props.Glue
 import Gaftools.Props.Glue2
+import Gaftools.Props.Reflect
 #print axioms Gaftools.C03.recNodes_iff
 #print axioms Gaftools.C03.index_exact
 #print axioms Gaftools.C03.specIndex_model
@@ -16,3 +17,7 @@ import Gaftools.Props.Glue2
 #print axioms Gaftools.Glue.goodGraph_of_valid
 #print axioms Gaftools.TieA.searchIv_gen_eq_model
 #print axioms Gaftools.TieA.overlapCaseIndex_gen_eq_model
+#print axioms Gaftools.Reflect.segsOf_eq
+#print axioms Gaftools.Reflect.validRGFAB_sound
+#print axioms Gaftools.Reflect.validRGFAB_tagged
+#print axioms Gaftools.Reflect.validRGFAB_complete
